@@ -1,12 +1,156 @@
 /-
-C07 — JSON / dict export and import are exact inverses. (theorems: work in progress)
+C07 — JSON / dict export and import are exact inverses.
+Model: `Model/JsonIO.lean` (`toDict` = `triangle_to_dict`; `decode` = `json.JSONDecoder` with
+`TriangleDecoder.object_hook` applied bottom-up to every object; `fromDict`). `Spec/C07.lean` holds
+`plainRead`, an independent hook-free reading of a document of the documented shape.
+Only property theorems here; helpers in `Lemmas/JsonIO.lean`.
+
+Plan of the full statement (DESIGN §7 C07 T):
+  A  toDict_shape    : WFjson t → plainRead (toDict t) = some (asTyped t)
+  B  fromDict_plain  : plainRead j = some cells → fromDict j = ofJCells cells
+  C  ofJCells_asTyped: WFjson t → ofJCells (asTyped t) = .ok (asTyped t)              (proved)
+  ⇒  fromDict_toDict : WFjson t → fromDict (toDict t) = .ok (asTyped t)               (A, B open)
 -/
-import Bermuda.Model.JsonIO
+import Bermuda.Lemmas.JsonIO
 import Bermuda.Spec.C07
 namespace Bermuda.Properties.C07
 open Bermuda Bermuda.JsonIO Bermuda.Spec.C07
 
+def errIs {α} (r : Except Err α) (e : Err) : Bool :=
+  match r with | .error e' => e' == e | .ok _ => false
+
+/-! ### dates: ISO text is read back exactly -/
+
+/-- `strptime(strftime(d))` is `d` for real dates with a four-digit year -/
+theorem parseIso_dateIso (d : Date) (h : wfDate d = true) : parseIso (dateIso d) = .ok d := by
+  obtain ⟨y, m, dd⟩ := d
+  simp only [wfDate, Date.valid, Bool.and_eq_true, decide_eq_true_eq] at h
+  obtain ⟨⟨⟨⟨⟨hm1, hm2⟩, hd1⟩, hd2⟩, hy1⟩, hy2⟩ := h
+  have hdd : dd < 32 := by have := dim_le_31 y m; omega
+  obtain ⟨n, rfl⟩ : ∃ n : Nat, y = (n : Int) := ⟨y.toNat, by omega⟩
+  have hn1 : 1000 ≤ n := by omega
+  have hn2 : n ≤ 9999 := by omega
+  unfold parseIso dateIso dateIsoChars yearChars
+  simp only [String.toList_ofList, Int.toNat_natCast, natDigits_year n hn1 hn2, pad2,
+    List.cons_append, List.nil_append]
+  unfold parseIsoChars
+  rw [splitDash4 _ _ _ _ _ (by rw [digitChar_mod]; exact digitChar_ne_dash _ (Nat.mod_lt _ (by omega)))
+    (by rw [digitChar_mod]; exact digitChar_ne_dash _ (Nat.mod_lt _ (by omega)))
+    (by rw [digitChar_mod]; exact digitChar_ne_dash _ (Nat.mod_lt _ (by omega)))
+    (by rw [digitChar_mod]; exact digitChar_ne_dash _ (Nat.mod_lt _ (by omega)))]
+  simp only []
+  rw [splitDash2 _ _ _ (by rw [digitChar_mod]; exact digitChar_ne_dash _ (Nat.mod_lt _ (by omega)))
+    (by rw [digitChar_mod]; exact digitChar_ne_dash _ (Nat.mod_lt _ (by omega)))]
+  simp only []
+  have e1 : digitVal? (digitChar (n / 1000)) = some (n / 1000) := digitVal_digitChar _ (by omega)
+  have e2 : digitVal? (digitChar (n / 100)) = some (n / 100 % 10) := by
+    rw [digitChar_mod]; exact digitVal_digitChar _ (Nat.mod_lt _ (by omega))
+  have e3 : digitVal? (digitChar (n / 10)) = some (n / 10 % 10) := by
+    rw [digitChar_mod]; exact digitVal_digitChar _ (Nat.mod_lt _ (by omega))
+  have e4 : digitVal? (digitChar n) = some (n % 10) := by
+    rw [digitChar_mod]; exact digitVal_digitChar _ (Nat.mod_lt _ (by omega))
+  have e5 := smallField_month m (by omega) hm1
+  have e6 := smallField_day dd hdd hd1
+  simp only [pad2] at e5 e6
+  rw [e1, e2, e3, e4, e5, e6]
+  simp only []
+  have hy : 1000 * (n / 1000) + 100 * (n / 100 % 10) + 10 * (n / 10 % 10) + n % 10 = n := by omega
+  rw [hy]
+  have : ¬ (n = 0 ∨ m > 12 ∨ dd > dim (n : Int) m) := by omega
+  simp [this]
+
+
+/-- the restriction is real: glibc prints year 999 as "999", which `%Y` (four digits) refuses -/
+theorem year_999_not_read_back :
+    errIs (parseIso (dateIso ⟨999, 1, 1⟩)) .valueError = true := by decide +kernel
+
+/-! ### classes: `Cell` comes back as `CumulativeCell`, nothing else changes -/
+
 theorem typedKind_idem (k : CellKind) : typedKind (typedKind k) = typedKind k := by
   cases k <;> rfl
+
+/-- incremental stays incremental, and the previous evaluation date is kept: the basis is preserved -/
+theorem asTyped_basis (t : List JCell) :
+    (asTyped t).map (fun c => (c.kind == .incremental, c.prev)) =
+      t.map (fun c => (c.kind == .incremental, c.prev)) := by
+  simp only [asTyped, List.map_map]
+  apply List.map_congr_left
+  intro c _
+  cases h : c.kind <;> simp [typedKind, h] <;> decide
+
+/-- a triangle stays a triangle when its `Cell`s become `CumulativeCell`s: the constructor accepts
+the typed cells and leaves their order alone -/
+theorem ofJCells_asTyped (t : List JCell) (h : WFjson t = true) :
+    ofJCells (asTyped t) = .ok (asTyped t) := by
+  simp only [WFjson, Bool.and_eq_true] at h
+  obtain ⟨⟨⟨_, hk⟩, hs⟩, _⟩ := h
+  unfold ofJCells
+  rw [if_pos (kindsConsistent_typed t hk)]
+  congr 1
+  apply List.mergeSort_of_pairwise
+  rw [asTyped_eq_map, List.pairwise_map]
+  exact (pairwise_of_sortedJ t hs).imp (fun {a b} hab => by rw [le_typed]; exact hab)
+
+
+/-- **fromDict_toDict, modulo the two open statements.** The round trip follows from: the written
+document read plainly is the original (A), the decoder with its hook agrees with the plain reading
+on documents of that shape (B), and C above. A and B are hypotheses here (they are the OPEN
+statements below); everything else is proved. -/
+theorem fromDict_toDict_partial (t : List JCell) (h : WFjson t = true)
+    (hA : plainRead (toDict t) = some (asTyped t))
+    (hB : ∀ j cells, plainRead j = some cells → fromDict j = ofJCells cells) :
+    fromDict (toDict t) = .ok (asTyped t) := by
+  rw [hB _ _ hA, ofJCells_asTyped t h]
+
+/-! ### non-vacuity and a concrete round trip (kernel evaluation of the model) -/
+
+/-- one incremental cell with every kind of value (int, float, None, int64 and float64 arrays) and
+metadata with an int limit, a string detail and a bool loss detail -/
+def ex : List JCell :=
+  [{ kind := .incremental, ps := ⟨2020, 1, 1⟩, pe := ⟨2020, 12, 31⟩, ev := ⟨2021, 6, 30⟩,
+     prev := some ⟨2020, 12, 31⟩,
+     values := [("paid_loss", .int 5), ("reported_loss", .flt (5/2)), ("open_claims", .none),
+                ("samples", .arr true [3] [3, 1, 2]), ("fsamples", .arr false [2] [1, 1/2])],
+     md := { country := some "US", limit := .int 250000, details := [("coverage", .str "BI")],
+             lossDetails := [("flag", .bool true)] } }]
+
+def okEq (r : Except Err (List JCell)) (x : List JCell) : Bool :=
+  match r with | .ok a => a == x | _ => false
+
+theorem ex_wf : WFjson ex = true := by decide +kernel
+
+theorem ex_fromDict_toDict : okEq (fromDict (toDict ex)) (asTyped ex) = true := by decide +kernel
+
+theorem ex_toDict_shape : (plainRead (toDict ex) == some (asTyped ex)) = true := by decide +kernel
+
+/-- the restriction `risk_basis ≠ None` is real: it reads back as the default "Accident" -/
+theorem ex_risk_basis_none :
+    okEq (fromDict (toDict (ex.map fun c => { c with md := { c.md with riskBasis := none } })))
+      (asTyped ex) = true := by decide +kernel
+
+/-- the restriction on key names is real: a field called `cells` makes the hook misread `values` -/
+theorem ex_field_named_cells :
+    errIs (fromDict (toDict (ex.map fun c => { c with values := [("cells", .int 1)] }))) .typeError = true := by
+  decide +kernel
+
+/-! ### statements not proved yet (the correspondence checks them on every run) -/
+
+-- OPEN toDict_shape
+--   theorem toDict_shape (t : List JCell) (h : WFjson t = true) : plainRead (toDict t) = some (asTyped t)
+--   (each slice's metadata attributes once, in `as_dict` order, `None`/`{}` omitted; cells in order with ISO
+--    dates, `prev_evaluation_date` exactly for incremental cells, arrays as lists. Needs: the groups of
+--    `groupBy` on a sorted, metadata-coherent list concatenate to the list (`sorted_contiguous`);
+--    `parseIso_dateIso`; `readVal (valToJ v) = some v` for `wfVal v`.)
+
+-- OPEN fromDict_plain
+--   theorem fromDict_plain (j : JVal) (cells : List JCell) (h : plainRead j = some cells) :
+--     fromDict j = ofJCells cells
+--   (any AST of the documented shape, however produced: the hook fires on every object bottom-up, the
+--    `values` / `details` / `loss_details` objects pass through it unchanged because `plainRead` demands
+--    trigger-free keys. Mutual induction over `decode`/`decodeList`/`decodeKvs`.)
+
+-- OPEN fromDict_toDict
+--   theorem fromDict_toDict (t : List JCell) (h : WFjson t = true) : fromDict (toDict t) = .ok (asTyped t)
+--   (= fromDict_toDict_partial with A := toDict_shape, B := fromDict_plain)
 
 end Bermuda.Properties.C07
